@@ -1,5 +1,6 @@
 (* C10 model driver.
    A <P|T> <file hex|->                  -> ACCEPT order=<k> bound=<n> | REJECT <class>
+   T <P|T> <text hex|->                  -> the same through parse_arpa_text (text delivered by a decompressor or a pipe)
    B <type 0..5|v> <enum 0|1> <file hex> -> REJECT <class> | UNDECIDED
    S <file size> <order> <size>          -> REJECT Format | UNDECIDED   (BinaryFormat::LoadBinary, numbers in hex)
    F <hex>                               -> FilePiece::ReadFloat probe: <class> <bytes consumed> | ERR <class> *)
@@ -21,6 +22,11 @@ let handle (line : string) : string =
   match split_ws line with
   | ["A"; st; h] ->
       (match parse_arpa (if st = "P" then Probing else Trie) (bytes_of_hex h) with
+       | Ok m -> Printf.sprintf "ACCEPT order=%d bound=%d" (List.length m.m_counts) (List.length m.m_words + 1)
+       | Err e -> "REJECT " ^ err_name e)
+  | ["T"; st; h] ->
+      (* the text reaches the ARPA parser through FilePiece's read() path (compressed file, pipe): no binary-format dispatch *)
+      (match parse_arpa_text (if st = "P" then Probing else Trie) (bytes_of_hex h) with
        | Ok m -> Printf.sprintf "ACCEPT order=%d bound=%d" (List.length m.m_counts) (List.length m.m_words + 1)
        | Err e -> "REJECT " ^ err_name e)
   | ["B"; t; en; h] when not (is_binary_file (bytes_of_hex h)) ->
